@@ -634,6 +634,64 @@ func cmdC20(seed uint64, tier, outdir string) {
 			bw.printf("VIOL - burst of %d elements: %s\n", n, verdict)
 		}
 	}
+	// element types that cannot be compared with == (slices, structs holding a slice, maps, funcs): the queue may
+	// only look at them through the less function it was given
+	for variant := 0; variant < 3; variant++ {
+		bc.printf("uncomparable element type %d\n", variant)
+		verdict := ""
+		func() {
+			defer func() {
+				if rec := recover(); rec != nil {
+					verdict = fmt.Sprintf("panicked: %v", rec)
+				}
+			}()
+			type span struct {
+				words []string
+				p     int
+			}
+			prio := func(x interface{}) int {
+				switch v := x.(type) {
+				case []int:
+					return v[0]
+				case span:
+					return v.p
+				case map[string]int:
+					return v["p"]
+				}
+				return 0
+			}
+			q := pq.NewQueue(func(x, y interface{}) bool { return prio(x) < prio(y) }, nil)
+			n := 40 + r.intn(40)
+			for i := 0; i < n; i++ {
+				p := r.intn(1000)
+				switch variant {
+				case 0:
+					q.Push([]int{p, i})
+				case 1:
+					q.Push(span{[]string{"a", "b"}, p})
+				default:
+					q.Push(map[string]int{"p": p})
+				}
+			}
+			prev := -1
+			for i := 0; i < n; i++ {
+				p := prio(q.Pop())
+				if p < prev {
+					verdict = fmt.Sprintf("Pop returned priority %d after %d", p, prev)
+					return
+				}
+				prev = p
+			}
+			if q.Len() != 0 {
+				verdict = "elements left after as many Pops as Pushes"
+			}
+		}()
+		if verdict == "" {
+			bw.printf("OK 1\n")
+		} else {
+			bw.printf("VIOL - queue of uncomparable elements (variant %d): %s\n", variant, verdict)
+		}
+	}
 	bw.close()
 	bc.close()
 }
